@@ -951,3 +951,15 @@ def replay(ctx, data):
         O.impl_encode(L[c.name], V.from_jsonable(hv), trig)
     r, enc, dec = c04_eval(c, L[c.name], v, trig)
     return r is None
+
+
+# --- W18 (nested tier, second part): VALUE leaves of all nine kinds (Props/C04Nested2.lean; relativised refinement statements OkW)
+LEAN_TARGETS = LEAN_TARGETS + ["OdxVerif.Props.C04Nested2"]
+THEOREMS = THEOREMS + [P + t for t in [
+    "C04_nested", "C04_nested_never_foreign2", "C04_nested_accepts_iff2", "encodeMessage_nested2_cases", "DescribedP2.okW",
+    "Obj.rejectsW", "PDesc.ofObjValue_okW", "PDesc.ofObjDefault_okW", "PDesc.ofValue_okW", "DDesc.struct_okW",
+    "DDesc.staticField_okW", "DDesc.dynLenField_okW", "DDesc.eopField_okW", "DDesc.mux_okW",
+    # STRUCTURE with BYTE-SIZE, LEADING-LENGTH leaf over A_BYTEFIELD, round-6 kinds outside the value-free class
+    "DDesc.structBS_okW", "DDesc.structO_okW", "PDesc.ofLeadBytes_okW", "PDesc.ofLeadStr_okW", "encodeParam_leadStr_rej", "PDesc.ofMinMaxLastBytes_okW", "PDesc.ofMinMaxLastStr_okW", "encodeParam_minmaxStr_rej", "minmax_rest_rej", "encodeParam_minmaxBytes_rej",
+    "encodeParam_matchingReq_rej",
+    "C04_endmarker_collision_counterexample"]]
